@@ -35,6 +35,12 @@ def explore(c):
     gdir = os.path.join(os.path.dirname(exe), "graphs"); os.makedirs(gdir, exist_ok=True)
     pre = os.path.join(gdir, cfgname(c))
     summ = pre + ".summary.json"
+    with wv.locked(pre):
+        return _explore_locked(c, exe, pre, summ)
+
+
+def _explore_locked(c, exe, pre, summ):
+    T, d, n, sp, blocks = c
     if not (os.path.exists(summ) and os.path.exists(pre + ".nodes.ndjson")):
         r = wv.run_harness(exe, ["explore", T, d, n, sp, pre, 400000], timeout=3000)
         out = r.stdout.decode(errors="replace").strip().splitlines()
@@ -61,6 +67,12 @@ def pct(c, blocks=2):
     gdir = os.path.join(os.path.dirname(exe), "graphs"); os.makedirs(gdir, exist_ok=True)
     pre = os.path.join(gdir, "pct_T%d_%s_n%d_r%d_seed%d" % (T, d, n, runs, wv.seed()))
     summ = pre + ".summary.json"
+    with wv.locked(pre):
+        return _pct_locked(c, exe, pre, summ)
+
+
+def _pct_locked(c, exe, pre, summ):
+    T, d, n, runs = c
     if not os.path.exists(summ):
         r = wv.run_harness(exe, ["pct", T, d, n, runs, pre], timeout=3000)
         out = r.stdout.decode(errors="replace").strip().splitlines()
@@ -84,6 +96,7 @@ def write_cfg(name, T, n, S, d, sp, spec, invariants, props, fair):
     d_ = os.path.join(wv.RUN, "pipecfg"); os.makedirs(d_, exist_ok=True)
     # TLC wants the cfg next to the module: keep generated cfgs in spec/gen (ignored by git)
     g = os.path.join(wv.SPEC, "gen"); os.makedirs(g, exist_ok=True)
+    name = "%s_p%d" % (name, os.getpid())
     with open(os.path.join(g, name + ".cfg"), "w") as f:
         f.write(txt)
     return os.path.join("gen", name)
@@ -252,6 +265,9 @@ def run(pid, tier, replay):
                     "samples": [{"configuration": cfgname(c), "explorer": {k: v for k, v in summ.items() if k != "e"}} for c, (np_, summ) in list(zip(cfgs, graphs))[:5]],
                     "rule": "exhaustive: every schedule of the real run_multicry (real OS threads, one at a time; scheduling points = lock acquisition, condition wait/wake incl. optional spurious wake-ups, thread start/exit/join, every WV_POINT) for the listed (T, direction, input length, spurious, chunk size) configurations, stateful DFS by re-execution; the resulting state graph is loaded into TLC as the behaviour spec CodeGraph.tla and TLC evaluates the property formulas in every code state / on every edge (and <>Done under strong fairness for C04). T in {4,8,16}: PCT-style random-priority schedules, the sampled subgraph checked the same way. Design level: Pipeline.tla model-checked for a matrix of configurations incl. spurious wake-ups, with negative controls.",
                     "exhaustive": True})
+    for f in os.listdir(os.path.join(wv.SPEC, "gen")):
+        if f.endswith("_p%d.cfg" % os.getpid()):
+            os.remove(os.path.join(wv.SPEC, "gen", f))
     res.assumptions += ["sequential consistency at the scheduling points (compiler/hardware reordering of the plain accesses between them is not modelled)",
                         "the projection pi (harness/h_sched.cpp wv_probe) reads the real private state through the guarded friend hook",
                         "T <= 3 exhaustive, T in {4,8,16} sampled"]
